@@ -154,7 +154,7 @@ package contentstream
 
 //@ func (*Parser) parseOperator results (err)
 //@   property C02, C03
-//@   requires pinv(p) && p.pos < len(p.data) && isLetter(p.data[p.pos])
+//@   requires pinv(p) && p.pos < len(p.data) && (isLetter(p.data[p.pos]) || p.data[p.pos] == 39 || p.data[p.pos] == 34)
 //@   ensures pinv(p) && same(p.data, old(p.data)) && p.pos > old(p.pos) && !err
 //@   ensures grouped: len(p.ops) == len(old(p.ops)) + 1 && len(p.operands) == 0
 //@   ensures operands: let o = p.ops[len(old(p.ops))] in len(o.Operands) == len(old(p.operands)) && forall k int :: {o.Operands[k]} 0 <= k && k < len(old(p.operands)) ==> o.Operands[k] == old(p.operands)[k]
@@ -163,9 +163,12 @@ package contentstream
 //@     invariant pinv(p) && psame(p, old(p)) && p.pos >= old(p.pos) && (p.pos == old(p.pos) ==> len(op) == 0) && (p.pos > old(p.pos) ==> len(op) > 0)
 //@     decreases len(p.data) - p.pos
 
+// (C08) a token that starts with a letter, ' or " is an OPERATOR (ISO 32000 9.4.3: ' and " show text on the next line);
+// it is never handed to the operand parser
 //@ func (*Parser) parseNext results (err)
-//@   property C02, C03
+//@   property C02, C03, C08
 //@   requires pinv(p)
+//@   callsite parseOperand() requires operators_are_never_read_as_operands: p.pos < len(p.data) && !isLetter(p.data[p.pos]) && p.data[p.pos] != 39 && p.data[p.pos] != 34
 //@   ensures pinv(p) && same(p.data, old(p.data)) && p.pos >= old(p.pos)
 //@   ensures progress: !err && old(p.pos) < len(p.data) ==> p.pos > old(p.pos)
 //@   ensures grouping: !err ==> (same(p.ops, old(p.ops)) && same(p.operands, old(p.operands)))
